@@ -19,7 +19,9 @@ VARIABLES st, prog, done
 gvars == <<st, prog, done>>
 
 Apps == IF CallsOnly THEN {"A", "B", "C"} ELSE IF Rich THEN {"A", "B", "NS :: C"} ELSE {"A", "B"}
-TypesOf(app) == IF ~Rich THEN {"T"} ELSE IF TypesOnly /\ app = "A" THEN {"T", "U", "M", "Z"} ELSE IF app = "A" THEN {"T", "U"} ELSE IF app = "B" THEN {"W", "V"} ELSE {"X", "Y"}
+\* application A also has a type named B, like the application next to it: `B.x` in A is then a field of the local type
+\* unless application B declares a type x (the documented resolution order)
+TypesOf(app) == IF ~Rich THEN {"T"} ELSE IF TypesOnly /\ app = "A" THEN {"T", "U", "M", "Z"} ELSE IF app = "A" THEN {"T", "U", "B"} ELSE IF app = "B" THEN {"W", "V"} ELSE {"X", "Y"}
 FieldNames == IF Rich THEN {"a", "b", "c", "d", "e", "x"} ELSE {"a"}
 EpNames == IF CallsOnly THEN {"e1", "e2"} ELSE IF Rich THEN {"Ep", "Op", "Get Thing"} ELSE {"Ep"}
 Texts == IF Rich THEN {"do it", "check stock", "validate the order", "done"} ELSE {"do it"}
@@ -39,12 +41,15 @@ Opts == IF Rich THEN BOOLEAN ELSE {FALSE}
 
 \* types declared so far in app (so that U.x style references are unambiguous)
 Declared(app) == {f[3] : f \in {g \in st.model : g[1] = "type" /\ g[2] = app /\ g[4] \in {"tuple", "relation"}}}
+\* A has a type named B: `B.W` written in A means application B's type W only if B declares W (otherwise it is read as
+\* field W of the local type B), so such a reference is only offered once B.W has been declared
+DeclaredAll(app) == {f[3] : f \in {g \in st.model : g[1] = "type" /\ g[2] = app}}
 FieldsOf(app, t) == {f[4] : f \in {g \in st.model : g[1] = "field" /\ g[2] = app /\ g[3] = t}}
 
 Refs(app) ==
   {<<"", t>> : t \in TypesOf(app)}
   \cup UNION {{<<"", t, f>> : f \in FieldsOf(app, t)} : t \in Declared(app)}
-  \cup UNION {{<<o, t>> : t \in TypesOf(IF o = "NS :: C" THEN "C" ELSE o)} : o \in Apps \ {app}}
+  \cup UNION {{<<o, t>> : t \in (IF app = "A" /\ o = "B" THEN DeclaredAll("B") ELSE TypesOf(IF o = "NS :: C" THEN "C" ELSE o))} : o \in Apps \ {app}}
 
 PrimShapes == {[p |-> p, ref |-> <<>>, size |-> s, opt |-> o, wrap |-> w] :
                  p \in Prims, s \in UNION {Sizes(q) : q \in Prims}, o \in Opts, w \in Wraps}
@@ -68,6 +73,12 @@ CurType == Top(st).type
 Pick(S) == IF Sample /\ S # {} THEN {RandomElement(S)} ELSE S
 
 PickN(S, n) == IF Sample /\ S # {} THEN {RandomElement(S) : i \in 1..n} ELSE S
+\* sampling: one field in five is a reference to a field of a local type when there is one (uniform choice over all
+\* shapes makes them rare)
+FieldRefShapes(app) == {s \in RefShapes(app) : Len(s.ref) > 2 /\ s.wrap = ""}
+PickShape(app) == IF Sample /\ FieldRefShapes(app) # {} /\ RandomElement(1..5) = 1 THEN {RandomElement(FieldRefShapes(app))}
+                  ELSE Pick(Shapes(app))
+
 
 Groups ==
   IF st.scope = <<>> THEN
@@ -105,7 +116,7 @@ Groups ==
     [] fr.k = "type" ->
        { (IF fr.kind \in {"tuple", "relation"} THEN
             {[k |-> "field", name |-> f, sh |-> sh, pk |-> pk, tags |-> tg, attrs |-> at, pos |-> NoPos] :
-               f \in PickN(FieldNames \ FieldsOf(fr.app, fr.type), 4), sh \in Pick(Shapes(fr.app)),
+               f \in PickN(FieldNames \ FieldsOf(fr.app, fr.type), 4), sh \in PickShape(fr.app),
                pk \in Pick(IF fr.kind = "relation" THEN BOOLEAN ELSE {FALSE}), tg \in Pick(TagSets \ {<<"t1", "t2">>}),
                at \in Pick(IF Rich THEN {<<>>, <<<<"json", "name">>>>} ELSE {<<>>})}
           ELSE IF fr.kind = "enum" THEN
